@@ -69,6 +69,8 @@ def run(rep, kf, tier, seed):
     import contracts.config_c as cfgc
     import contracts.responses_b as rb
     import contracts.add_parameters as cap
+    import contracts.endpoint_from_data as cefd
+    engine_b.discharge(rep, kf, [cefd.from_data_contract()], "C03", tier, seed)
     engine_b.discharge(rep, kf, [rb.body_from_data_contract(), cfgc.get_content_type_contract(), cap.add_parameters_contract()],
                        "C03", tier, seed)
     from props.common import run_bounded
